@@ -13,6 +13,7 @@ LABEL_POOL = [
     "e\u0301tude", "\u212bngstr\u00f6m", "\u1112\u1161\u11ab", "a\u0303o \u00e3o", "\ufb01n", "1e-05", "xmin", "text", "mark", "number", "size = 3", "null\x00byte", "-", "--", "0", "None", "false", "[]", "_",
     "vt\x0btab", "form\x0cfeed", "nel\x85here", "ls\u2028sep", "ps\u2029sep", "fs\x1cgs\x1drs\x1e",  # what str.splitlines() splits on, besides \n
     "step size = 0.25", "window size=0", "size = 0",
+    "[noise], [laugh]", '"a": [1, 2], "b"', "}, {", "\\n not a newline", "\\u00e9", "ooTextFile", "says ooTextFile here", "File type",
 ]
 WS_LABELS = [" ", "  \t", "\n", " pad ", "\nlead", "trail \n", "\t a  b \t", " \u00e9 "]  # surrounding / only white space (file-level data; tiers store labels stripped)
 KEYWORD_LABELS = ['item [2]:', 'intervals [1]:', 'points [1]:', '"IntervalTier"', '"TextTier"', 'class = "IntervalTier"', 'text = "x"',
